@@ -79,6 +79,8 @@ func malformedAllStream(cfg *Config) *hx.Stats {
 	kinds := map[string]int{}
 	var obsMu sync.Mutex
 	obsEncodePanic := 0
+	accepted := 0
+	obsHuge := 0
 	try := func(id atree.SlabID, b []byte, what string) {
 		done := make(chan string, 1)
 		go func() {
@@ -92,6 +94,9 @@ func malformedAllStream(cfg *Config) *hx.Stats {
 			_, _ = atree.HasSizeLimit(b)
 			s, err := atree.DecodeSlab(id, b, hx.DecMode(), hx.DecodeStorable, hx.DecodeTypeInfo)
 			if err == nil && s != nil {
+				obsMu.Lock()
+				accepted++
+				obsMu.Unlock()
 				_ = s.ByteSize()
 				_ = s.ChildStorables()
 				// Re-encoding an accepted slab is NOT part of C19 (the property names decoding, the header
@@ -105,6 +110,14 @@ func malformedAllStream(cfg *Config) *hx.Stats {
 							obsMu.Unlock()
 						}
 					}()
+					// (observation O1: canBeEncodedAsCompactMap allocates by the extra-data count of the
+					// register; with a count of billions the call would exhaust memory, so it is not made)
+					if _, huge := compactCountMismatch(atree.VerifDumpSlab(s, hx.Describe)); huge {
+						obsMu.Lock()
+						obsHuge++
+						obsMu.Unlock()
+						return
+					}
 					_, _ = atree.EncodeSlab(s, hx.EncMode())
 				}()
 			}
@@ -163,11 +176,29 @@ func malformedAllStream(cfg *Config) *hx.Stats {
 			try(id, b, "mutation")
 		}
 	}
+	// registers built from the slab grammar with per-field valid / boundary / invalid choices (grammar.go)
+	nGram := int(12000 * cfg.Scale)
+	obsMu.Lock()
+	acc0 := accepted
+	obsMu.Unlock()
+	for i := 0; i < nGram && len(st.Violations) < 20; i++ {
+		data, _ := genRegister(cfg.Seed*7000003+int64(i)+1<<40, i%2 == 1)
+		try(hx.MkIDn(0x0102030405060708, uint64(1+i%200)), data, "grammar-built register")
+	}
+	st.Dist["grammar-built"] = nGram
+	obsMu.Lock()
+	gramOK := accepted - acc0
+	obsMu.Unlock()
+	st.Dist["grammar-built:accepted"] = gramOK
+	if nGram > 0 && 100*gramOK < 30*nGram && len(st.Violations) == 0 {
+		st.HarnessErr = fmt.Sprintf("grammar-aware generator: only %d of %d registers accepted (< 30%%)", gramOK, nGram)
+	}
 	for k, v := range kinds {
 		st.Dist[k] = v
 	}
 	obsMu.Lock()
 	st.Dist["observation:re-encode-of-accepted-mutant-panics"] = obsEncodePanic
+	st.Dist["observation:re-encode-of-accepted-mutant-huge-count-not-called"] = obsHuge
 	obsMu.Unlock()
 	st.Distinct = int(st.Ops)
 	st.Samples = append(st.Samples, fmt.Sprintf("%d registers (map data/index/collision-group, inlined arrays/maps, wrappers, compact maps, large values, array data/index): every truncation + %d mutations each", st.Programs, perReg))
